@@ -624,11 +624,32 @@ func propertiesLoop(p *procInfo) *core.RangeLoop {
 		}
 	}
 	for _, rl := range core.RangeLoops(p.Props) {
-		if core.Norm(rl.Slice) == ssa.Value(param) {
+		if core.Norm(rl.Slice) == ssa.Value(param) || copyOfSlice(rl.Slice, param) {
 			return rl
 		}
 	}
 	return nil
+}
+
+// copyOfSlice: v is append(<nil or empty slice>, param...) - a defensive copy holding the same elements in the same order.
+func copyOfSlice(v ssa.Value, param *ssa.Parameter) bool {
+	call, ok := core.Norm(v).(*ssa.Call)
+	if !ok || param == nil {
+		return false
+	}
+	bi, isB := call.Common().Value.(*ssa.Builtin)
+	if !isB || bi.Name() != "append" || len(call.Common().Args) != 2 || core.Norm(call.Common().Args[1]) != ssa.Value(param) {
+		return false
+	}
+	switch x := core.Norm(call.Common().Args[0]).(type) {
+	case *ssa.Const:
+		return x.Value == nil // the nil slice
+	case *ssa.MakeSlice:
+		if k, isK := core.ConstInt(x.Len); isK && k == 0 {
+			return true
+		}
+	}
+	return false
 }
 
 // propsIter: where a processor iterates over its properties: the loop in its own method, or the loop of an iterator
